@@ -396,6 +396,12 @@ def check_circuit_validation(ctx, cirq, n):
                         forced.append((dname, [va(base), vb(base)]))
     if ctx.tier == 'quick':
         forced = forced[ctx.seed % 2::2]
+    # a sub-circuit operation on three qubits with a two-qubit gate on an uncoupled pair inside
+    syc_q = devices['Sycamore'][1]
+    forced.append(('Sycamore', [cirq.CircuitOperation(cirq.FrozenCircuit(cg.SYC(syc_q[0], syc_q[2]), cirq.X(syc_q[1])))]))
+    forced.append(('Sycamore', [cirq.CircuitOperation(cirq.FrozenCircuit(cg.SYC(syc_q[0], syc_q[1]), cirq.X(syc_q[2])))]))
+    forced.append(('GridDevice[virtual-z]', [cirq.CircuitOperation(cirq.FrozenCircuit(cirq.CZ(gq[0], gq[2]), cirq.X(gq[1])))]))
+    forced.append(('GridDevice[virtual-z]', [cirq.CircuitOperation(cirq.FrozenCircuit(cirq.CircuitOperation(cirq.FrozenCircuit(cirq.CZ(gq[0], gq[2]), cirq.X(gq[1])))))]))
     for it in range(n + len(forced)):
         dname = rng.choice(list(devices))
         dev, qs = devices[dname]
@@ -411,13 +417,19 @@ def check_circuit_validation(ctx, cirq, n):
             if rng.random() < 0.5:
                 op = op.with_tags(rng.choice([cg.PhysicalZTag(), 'note', cg.FSimViaModelTag()]))
             ops.append(op)
+        if it >= len(forced) and dname in ('Sycamore', 'GridDevice[physical-z]', 'GridDevice[virtual-z]') and rng.random() < 0.3 and len(ops) >= 2:
+            # some of the operations wrapped into one sub-circuit operation: what is inside has to be acceptable one by one
+            ops = [cirq.CircuitOperation(cirq.FrozenCircuit(ops[:2]))] + ops[2:]
         circuit = cirq.Circuit(ops, strategy=cirq.InsertStrategy.NEW)
-        per_op = all(accepts(dev.validate_operation, op) for op in circuit.all_operations())
+        per_op = all(accepts(dev.validate_operation, op) for op in cirq.unroll_circuit_op(circuit, deep=True, tags_to_check=None).all_operations())
         per_moment = all(accepts(dev.validate_moment, m) for m in circuit)
         whole = accepts(dev.validate_circuit, circuit)
         ctx.count('check', f'circuit-validation:{dname}')
         ctx.case(['circuit-validation', dname, repr(circuit)], True)
-        if whole != (per_op and per_moment):
+        has_sub = any(isinstance(op.untagged, cirq.CircuitOperation) for op in circuit.all_operations())
+        # (a sub-circuit operation is itself an operation of the circuit: a device may refuse the wrapper, e.g. for acting on an
+        # uncoupled pair, although everything inside is acceptable; it may not accept it when something inside is not)
+        if (whole and not (per_op and per_moment)) or (not has_sub and whole != (per_op and per_moment)):
             ctx.report_witness(f'device:circuit-validation:{dname.split("[")[0]}', 'validate_circuit disagrees with validating the operations (and moments) of the circuit one by one',
                                {'lines': [{'device': dname, 'circuit': repr(circuit)}], 'impl_out': [whole], 'spec_out': [per_op and per_moment], 'theorem_or_correspondence': 'accept iff every operation is accepted'})
 
